@@ -1,7 +1,7 @@
 use std::fmt;
 use std::path::{Path, PathBuf};
 
-use futures::stream::{FuturesUnordered, StreamExt};
+use futures::future::join_all;
 use ignore::{
 	gitignore::{Gitignore, GitignoreBuilder, Glob},
 	Match,
@@ -76,22 +76,20 @@ impl IgnoreFilter {
 		let _span = trace_span!("build_filterer", ?origin);
 
 		trace!(files=%files.len(), "loading file contents");
-		let (files_contents, errors): (Vec<_>, Vec<_>) = files
-			.iter()
-			.map(|file| async move {
-				trace!(?file, "loading ignore file");
-				let content = read_to_string(&file.path)
-					.await
-					.map_err(|err| Error::Read {
-						file: file.path.clone(),
-						err,
-					})?;
-				Ok((file.clone(), content))
-			})
-			.collect::<FuturesUnordered<_>>()
-			.collect::<Vec<_>>()
-			.await
-			.into_iter()
+		// read concurrently, but keep the listed order: for files applying in the same directory,
+		// later ones take precedence
+		let (files_contents, errors): (Vec<_>, Vec<_>) = join_all(files.iter().map(|file| async move {
+			trace!(?file, "loading ignore file");
+			let content = read_to_string(&file.path)
+				.await
+				.map_err(|err| Error::Read {
+					file: file.path.clone(),
+					err,
+				})?;
+			Ok((file.clone(), content))
+		}))
+		.await
+		.into_iter()
 			.map(|res| match res {
 				Ok(o) => (Some(o), None),
 				Err(e) => (None, Some(e)),
